@@ -62,7 +62,8 @@ def evaluate(cases: list[dict], run: Run) -> dict:
                                      "rebuild": {k: o["rebuild"][k] for k in ("res", "mro", "same_bytes")},
                                      "test": o["test"], "set": {k: o["set"][k] for k in ("res", "mro")},
                                      "rm": {k: o["rm"][k] for k in ("res", "mro")},
-                                     "value": {k: o["value"][k] for k in ("res", "mro")}, "cli_set": o["cli_set"]}))
+                                     "value": {k: o["value"][k] for k in ("res", "mro")}, "cli_set": o["cli_set"],
+                                     "edits": o["edits"], "cli_edits": o["cli_edits"]}))
         shards = 6
         files = []
         for s in range(shards):
@@ -101,9 +102,11 @@ def check_c07(tier: str, seed: int) -> int:
             o = c["o"]
             detail = {"input": c["text"], "has_syntax_error": c["err"], "one_expression": c["one"], "generator": c["key"],
                       "rebuild": o["rebuild"], "test": o["test"], "set": o["set"], "rm": o["rm"], "value": o["value"], "cli_set": o["cli_set"],
-                      "all_clauses": v["c07"]}
+                      "edits": o["edits"], "cli_edits": o["cli_edits"], "all_clauses": v["c07"]}
             what = {"C07_ValueWellFormed": f"value_res={o['value']['res']}", "C07_PassThrough": f"rebuild={o['rebuild']['res']}",
                     "C07_NeverEdited_set": f"set={o['set']['res']}", "C07_NeverEdited_rm": f"rm={o['rm']['res']}"}.get(cl, "")
+            if cl.startswith("C07_NeverEdited_path:") or cl.startswith("C07_CliSilent:"):
+                what = "scoped" if "@" in cl else "plain"
             run.violation(f"{cl}|{what}|{'one_expr' if c['one'] else 'error' if c['err'] else 'not_one_expr'}", cl, detail)
     run.coverage["texts_with_syntax_error"] = nerr
     run.coverage["texts_not_one_expression"] = sum(1 for c in cases if not c["one"])
@@ -115,7 +118,7 @@ def check_c07(tier: str, seed: int) -> int:
                         "faults: one chunk deleted / duplicated / delimiter inserted / truncation per program; token soups; non-Nix text"]
     return run.finish(rule=("texts = every Gen.tla construct in the tier's contexts with ONE fault (Damage.tla: delete, duplicate, insert "
                             "each of 18 delimiters, truncate after / inside each chunk), token soups and non-Nix text; for each: rebuild, "
-                            "`nima test', set, rm, the text as VALUE, `nima set' on stdin; judged by TLC (Robust.tla); non-trivial when "
+                            "`nima test', set / rm through plain, nested, quoted and scope-prefixed (@, @@) paths, the text as VALUE, `nima set' / `nima rm' on stdin; judged by TLC (Robust.tla); non-trivial when "
                             "the text has a syntax error or is not one expression"))
 
 
